@@ -158,7 +158,11 @@ def get_gls(
                     for story in stories:
                         new_stories.update(story)
 
-                    if s1 + sM == sL:
+                    if sM == sL:
+                        # if all evaluate to -1 (missing data only), the node
+                        # stays undetermined
+                        new_nodes.append((-1, new_stories))
+                    elif s1 + sM == sL:
                         # combine states if they evaluate to 1
                         new_nodes.append((1, new_stories))
                         log.debug("...... 1 nodes: %s" % (new_nodes[-1],))
@@ -167,9 +171,6 @@ def get_gls(
                         # append the new combined stuff to the dictionary
                         new_nodes.append((0, new_stories))
                         log.debug("...... 0 nodes: %s" % (new_nodes[-1],))
-                    elif sM == sL:
-                        # if the both evaluate to -1, also combine them
-                        new_nodes.append((-1, new_stories))
                     else:
                         # append both scenarios if there's both 1 and 0
                         # assuming origin, each node that has a 0, needs an extra origin
@@ -190,7 +191,7 @@ def get_gls(
 
                 # evaluate the scenarios for consistency reasons,
                 good_nodes = []
-                minGains, minLoss = defaultdict(list), defaultdict(list)
+                minGains, minLoss, minMissing = defaultdict(list), defaultdict(list), defaultdict(list)
                 for j, (state, scenario) in enumerate(new_nodes):
                     # avoid to append scenarios with more than allowed gains per lineage
                     if not (state == 1 and list(scenario.values()).count(1) > gpl):
@@ -206,12 +207,17 @@ def get_gls(
                         # loss-models are encountered
                         elif state == 1:
                             minLoss[w].append(j)
+                        # undetermined nodes (missing data only) are kept as well
+                        else:
+                            minMissing[w].append(j)
 
                 # append lowest weights in gains to the list
                 if minGains:
                     good_nodes.extend([new_nodes[idx] for idx in minGains[min(minGains)]])
                 if minLoss:
                     good_nodes.extend([new_nodes[idx] for idx in minLoss[min(minLoss)]])
+                if minMissing:
+                    good_nodes.extend([new_nodes[idx] for idx in minMissing[min(minMissing)]])
 
                 scenarios[tree_node.Name] = good_nodes
 
